@@ -256,15 +256,23 @@ CLAIMED = {
         technique="composed Lean 4 model validated by differential correspondence + round-trip search with shrinking",
         design="6/C07"),
     "C10": dict(
-        category="translation_validation",
-        text="Decided by search on the real pipeline: mutation-XSS shaped inputs -> parse -> sanitize+serialize (random options) "
-             "-> re-parse as document and as fragment in 13 containers x scripting on/off; the default allow-lists, the "
-             "no-comment rule and the browser-scheme rule are evaluated on the re-parsed tree by direct traversal. Every stage "
-             "has a Lean model tied to /repo by its own correspondence (sanitizer C09, serializer C08, tokenizer C02, tree "
-             "construction C01); proved here only that the sanitizer sits before optional-tag omission and after attribute "
-             "sorting in the extracted pipeline. The composed safety theorem is not proved.",
-        note="search on the real code; component models tied separately; composition not proved.",
-        technique="component Lean models + end-to-end re-parse safety search on the real code",
+        category="proof",
+        text="Token-level composition proved in Lean (C10b, 38 theorems) for EVERY allow-list configuration L, serializer option "
+             "set (quote_attr_values legacy/spec/always, both quote characters, omit_optional_tags off) and walker stream ts "
+             "satisfying a decidable input predicate parsedOK (names and values as a parser produces them, no raw-text/RCDATA "
+             "element among the ALLOWED tags): C10_sanitized_tokOK (sanitizer output satisfies the serializer round-trip "
+             "hypotheses automatically: comments gone, disallowed attributes gone, rewritten CSS/URL values stay NUL/CR-free), "
+             "C10_retokenised_is_sanitized (the serializer reports no error and the WHATWG tokenizer reads the serialised text "
+             "back as exactly the sanitized stream), C10_retokenised_allowlisted (every tag read back has an allow-listed name, "
+             "every attribute is allow-listed, URI attributes satisfy the sanitizer's scheme clause, no comment token, every "
+             "character comes from text or from an escaped disallowed tag) — composing the C09 and C08c theorems; every "
+             "hypothesis has a kernel counter-example. NOT covered by the theorem and decided by search on the real pipeline: "
+             "what TREE CONSTRUCTION does with the safe token stream (namespaces, raw-text and foreign-content context "
+             "switches: the recorded finding element-reparsed-in-another-namespace): mutation-XSS shaped inputs -> parse -> "
+             "sanitize+serialize (random options) -> re-parse as document and as fragment in 13 containers x scripting on/off, "
+             "allow-lists, no-comment rule and browser-scheme rule evaluated on the re-parsed tree.",
+        note="token-level proof (sanitize o serialize o tokenize); tree-construction stage of the re-parse is search-level.",
+        technique="Lean 4 composition theorem (sanitizer model o serializer model o WHATWG tokenizer spec) + end-to-end re-parse safety search on the real code",
         design="6/C10"),
     "C09": dict(
         category="proof",
